@@ -38,6 +38,10 @@ var c16Inits = []c16Init{
 	{name: "fresh", none: true},
 	{name: "finished", src: "a := 1\nb := 2", finish: true},
 	{name: "top", src: "a := 1\nb := 2\nc := 3", breaks: []int{2}},
+	// suspended inside nested block scopes of a function (describe merges the scopes up to the function)
+	{name: "blocks", src: "func f(x) {\n  if x > 0 {\n    let y := x\n    for i in [1] {\n      y := y + i\n    }\n    return y\n  }\n}\na := f(1)", breaks: []int{5}},
+	// suspended inside a call that is the argument of another call
+	{name: "argcall", src: "func g(x) {\n  return x * 2\n}\nfunc f(x) {\n  return x + 1\n}\nr := f(g(2))\nlog(r)", breaks: []int{2}},
 	{name: "toplist", src: "a := [1, {\"k\": 2}]\nb := 2\nc := 3", breaks: []int{2}},
 	{name: "call1", src: "func f(x) {\n  y := x\n  return y\n}\na := f(1)\nb := 2", breaks: []int{2}},
 	{name: "call2", src: "func g(x) {\n  return x * 2\n}\nfunc f(x) {\n  let z := g(x)\n  return z + 1\n}\nr := f(2)", breaks: []int{2}},
